@@ -154,8 +154,11 @@ class Scheduler(Subject):
             data: The data which the observers will receive.
         """
 
-        for observer in self.observers:
-            observer.update(notification_type, data)
+        # an observer may detach itself or another observer while it is updated: the list is not
+        # iterated while it changes, and an observer that was detached meanwhile gets nothing more
+        for observer in list(self.observers):
+            if observer in self.observers:
+                observer.update(notification_type, data)
 
     def start(self) -> bool:
         """Starts the scheduling process for the given PFDL file from the path.
